@@ -24,7 +24,7 @@ directive @traced on SCHEMA
 scalar Money
 scalar Counter
 interface Node { id: ID! }
-type Item implements Node { id: ID! price: Money label: String @tag }
+type Item implements Node { id: ID! price: Money label: String @tag secret: Int @nonIntrospectable old: Int @deprecated(reason: "gone") }
 type Item2 implements Node { id: ID! price: Money label: String @tag }
 input In { m: Money = 1 ms: [Money!] }
 type Query { item: Node item2: Node value: Int count: Counter echo(m: Money): String nodef: Int echol(ms: [Money!]): String echoi(i: In): String }
@@ -52,6 +52,8 @@ PROBES = [
     ("q", "{ a: __type(name: \"Item\") { fields(includeDeprecated: true) { name isDeprecated args { name defaultValue } } } "
           "b: __type(name: \"Level\") { enumValues { name } } __schema { types { name fields { name } enumValues { name } } } }"),
     ("s", "subscription { tick }"),
+    # the built-in directives are part of every bundle: declared, listed, and effective
+    ("q", "{ __schema { directives { name locations args { name } } } i: __type(name: \"Item\") { fields { name } } item { ... on Item { secret old } } }"),
     # variables of wrapped / composite types mentioning the per-bundle scalar (value, default, absent)
     ("q", "query($m: Money!) { echo(m: $m) }"),
     ("q", "query($ms: [Money!] = [3]) { echol(ms: $ms) a: echol(ms: [4, 5]) }"),
